@@ -676,6 +676,21 @@ def drv_misuse(doc, args, inst):
         'hadamard_types': lambda: tt.dmrg_hadamard(r([2, 3]), 3),
         'hadamard_kinds': lambda: tt.dmrg_hadamard(r([2, 3]), r([(2, 2), (3, 3)])),
         'hadamard_order': lambda: tt.dmrg_hadamard(r([2, 3]), r([2, 3, 2])),
+        'ctor_shape_count': lambda: tt.TT(tn.randn(2, 3, 4, 2, dtype=tn.float64), shape=[2, 3, 4]),
+        'ctor_shape_count_numpy': lambda: tt.TT(tn.randn(2, 3, 4, 2, dtype=tn.float64).numpy(), shape=[2, 3, 4]),
+        'ctor_shape_count_ttm': lambda: tt.TT(tn.randn(2, 3, 2, 3, 2, dtype=tn.float64), shape=[(2, 2), (3, 3)]),
+        'getitem_ttm_single_int': lambda: r([(3, 4)])[0],
+        'getitem_ttm_single_slice': lambda: r([(3, 4)])[0:2],
+        'getitem_bare_bool': lambda: r([5])[True],
+        'round_rmax_zero': lambda: r([2, 3, 4]).round(1e-10, rmax=0),
+        'round_rmax_negative': lambda: r([2, 3, 4]).round(1e-10, rmax=0),
+        'round_rmax_list_zero': lambda: r([2, 3]).round(1e-10, rmax=[1, 0, 1]),
+        'riemann_order': lambda: tt.manifold.riemannian_projection(r([2, 3]), r([2, 3, 2], [1, 2, 1, 1])),
+        'riemann_order_ttm': lambda: tt.manifold.riemannian_projection(r([(2, 2), (3, 3)]), r([(2, 2), (3, 3), (2, 2)], [1, 2, 1, 1])),
+        'riemann_size': lambda: tt.manifold.riemannian_projection(r([2, 3]), r([2, 4])),
+        'random_rank_zero': lambda: tt.random([2, 3], 0),
+        'random_list_rank_zero': lambda: tt.random([2, 3, 2], [1, 2, 0, 1]),
+        'randn_rank_zero': lambda: tt.randn([2, 3, 2], [1, 0, 2, 1]),
     }
     if case not in calls:
         return []
@@ -1211,6 +1226,32 @@ def drv_grad_api(doc, args, inst):
                 'grad' if case == 'grad_twice' else 'grad_list', max(float((a - b).abs().max()) for a, b in zip(g2, ref2))))
         if any(not tn.equal(a, b) for a, b in zip(g1, g1_copy)):
             msgs.append('the list returned by the first call changed its value during the second call')
+    elif case == 'grad_then_indices':
+        tt.grad.watch(x)
+        g1 = tt.grad.grad(x.sum(), x)
+        g1_copy = [t.clone() for t in g1]
+        g2 = tt.grad.grad((x * x).sum(), x, [0])
+        y = tt.TT([c.detach().clone().requires_grad_(True) for c in x.cores])
+        ref2 = tn.autograd.grad((y * y).sum(), y.cores)
+        if len(g2) != 1 or not tn.allclose(g2[0], ref2[0]):
+            msgs.append('grad(val2, x, [0]) after grad(val1, x) does not return the gradient of val2 w.r.t. core 0')
+        bad = [j for j, (a, b) in enumerate(zip(g1, g1_copy)) if not tn.equal(a, b)]
+        if bad:
+            msgs.append('entries %s of the list returned by grad(val1, x) changed their value during grad(val2, x, [0])' % bad)
+    elif case in ('grad_independent', 'grad_indices_independent', 'grad_list_independent', 'grad_list_nested_independent'):
+        y = tt.random([3, 2], [1, 2, 1], dtype=tn.float64)
+        tt.grad.watch(x); tt.grad.watch(y)
+        v = y.sum()
+        if case == 'grad_independent':
+            g, want = tt.grad.grad(v, x), list(x.cores)
+        elif case == 'grad_indices_independent':
+            g, want = tt.grad.grad(v, x, [2, 0]), [x.cores[2], x.cores[0]]
+        elif case == 'grad_list_independent':
+            g, want = tt.grad.grad_list(v, [x, y])[:3], list(x.cores)
+        else:
+            g, want = tt.grad.grad_list(v, [y, x], all_in_one=False)[1], list(x.cores)
+        if len(g) != len(want) or any(a is None or not tn.is_tensor(a) or a.shape != c.shape or float(a.abs().max()) != 0.0 for a, c in zip(g, want)):
+            msgs.append('gradient w.r.t. watched cores the value does not depend on: got %s, the dense derivative is a zero array of the shape of each core' % [None if a is None else list(a.shape) for a in g])
     elif case == 'watch_some':
         tt.grad.watch(x, [2, 0])
         if [c.requires_grad for c in x.cores] != [True, False, True]:
